@@ -1,10 +1,10 @@
 ---------------------------- MODULE Rec_Execution ----------------------------
-EXTENDS Execution, Json, IOUtils, TLCExt
+EXTENDS Activities, Json, IOUtils, TLCExt
 CONSTANT NC
 Recs == JsonDeserialize(IOEnv.REC_FILE)
 VARIABLES cc, i
 Init == cc \in 1..NC /\ i = 0
 Next == i = 0 /\ i' \in {j \in 1..Len(Recs) : j % NC = cc - 1} /\ UNCHANGED cc
 Spec == Init /\ [][Next]_<<cc, i>>
-Verdict == i = 0 \/ LET v == ClassifyC11(Recs[i]) IN v = "ok" \/ PrintT(<<"REC", i, v>>)
+Verdict == i = 0 \/ LET v == ClassifyC11x(Recs[i]) IN v = "ok" \/ PrintT(<<"REC", i, v>>)
 =============================================================================
